@@ -53,9 +53,15 @@ def is_null(v, ty):
     return v is None or (ty == 'UNIQUE_ID' and v == 0) or (ty == 'STRING' and v == '')
 
 
+def tyname(t):
+    # the declared type names may be written in any letter case (PARAMS typecase: upper | lower | mixed)
+    tc = PARAMS.get('typecase', 'upper')
+    return t if tc == 'upper' else t.lower() if tc == 'lower' else ''.join(c.lower() if i % 2 else c.upper() for i, c in enumerate(t))
+
+
 def schema_text():
-    a_attrs = ', '.join('%s %s' % (n, t) for n, t in KEYS)
-    b_attrs = ', '.join('A_%s %s' % (n, t) for n, t in KEYS)
+    a_attrs = ', '.join('%s %s' % (n, tyname(t)) for n, t in KEYS)
+    b_attrs = ', '.join('A_%s %s' % (n, tyname(t)) for n, t in KEYS)
     s = 'CREATE TABLE A (%s, Tag INTEGER);\nCREATE TABLE B (Tag INTEGER, %s);\n' % (a_attrs, b_attrs)
     s += 'CREATE ROP REF_ID R1 FROM MC B (%s) TO 1C A (%s);\n' % (
         ', '.join('A_' + n for n, _ in KEYS), ', '.join(n for n, _ in KEYS))
